@@ -108,12 +108,20 @@ Theorem c20_saving_types_modelled : forall r, In r action_results -> ar_saves r 
 Proof. exact saving_types_modelled. Qed.
 Print Assumptions c20_saving_types_modelled.
 
-(* results are written through the known doors only: methods of baseAction, of baseRouter, and run.SaveResult *)
-Theorem c20_save_sites_known : save_result_sites <> [] /\ forall s, In s save_result_sites -> site_known s = true.
+(* results are written through the known doors only (typed census of the whole module) *)
+Theorem c20_save_sites_known : save_result_sites <> [] /\ forall sc, In sc save_result_sites -> site_known sc = true.
 Proof. exact save_sites_known. Qed.
 Print Assumptions c20_save_sites_known.
 
-(* which savers save only under a non-empty result_name (hand-written in the model) is what the source says *)
-Theorem c20_guards_as_in_source : forall s, sv_guarded s = guarded_in_table s.
-Proof. exact sv_guarded_table. Qed.
+(* the table is complete: per registered type, the extraction visited exactly what go/types finds reachable *)
+Theorem c20_rows_complete : forall r, In r action_results -> row_complete r = true.
+Proof. exact rows_complete. Qed.
+Print Assumptions c20_rows_complete.
+
+(* which savers save only under a non-empty result_name, and that every declaring saver declares exactly under a
+   non-empty result_name (both hand-written in the model), is what the source says *)
+Theorem c20_guards_as_in_source : forall s,
+  sv_guarded s = guarded_in_table s
+  /\ (sv_declares s = true -> decl_guard_in_table s = [["NAME_NONEMPTY"]]%string).
+Proof. intro s. split; [apply sv_guarded_table | apply decl_guard_table]. Qed.
 Print Assumptions c20_guards_as_in_source.
